@@ -38,11 +38,23 @@ configured size; x86: {di.mov (unallocated / rax), get_register, ds.mov (unalloc
 rs.add (two-address), ss.cmp} with 0-2 arguments (unallocated or rdi/rsi).  Pools: the first 2, 3, 4 registers of
 (t0, a0, t1, a1) / (rax, rdi, rcx, rsi), plus the passes with their default pools and the infinite-register options.
 
+Two further families exercise loop nests (riscv only; x86_scf.for and frep are not modelled):
+* `rv-nest`: depth-2 nests `for a..b { npre temporaries; for lb..ub step s iter_args(init) {..}; npost temporaries }`
+  with npre, npost in 0..2 and every choice of the inner loop's lb / ub / step / init among the function arguments
+  (two of them are the outer bounds, the others are used by nothing but the inner loop op), the outer induction
+  variable and the temporaries defined before the inner loop; bounds are symbolic so that both loops are executed
+  for 0, 1 and 2 iterations; pools of 5..10 registers and the pass;
+* `rv-prenest`: values pre-allocated to a0 / a1 (function arguments, or top-level get_register results) that are read
+  inside a loop body of depth 1 or 2, with / without an additional top-level use, with / without a riscv.comment
+  (an op without declared memory effects) in the same or in the enclosing body, with 0..5 (7) values live across
+  the loop and pools of 3..10 registers.
+
 Signatures name the cause class so that different defects stay apart: `...|clobbered-live-value|<class>` and
 `...|two-live-values-share-register[|<class>]` where <class> is `register-of-unused-get_register` (the shared
 register is pre-allocated in the input, but only to unused get_register results), `preallocated-register-reused`,
-`loop|...` (programs with a riscv_scf.for: which value was read / which pair collided), or the kind of the op that
-overwrote the register.
+`preallocated-register-used-only-in-loop-body`, `loop|...` (programs with a riscv_scf.for: which value was read /
+which pair collided), `nest|...` (the value is an operand of an inner loop op and defined outside the whole nest),
+or the kind of the op that overwrote the register.
 """
 from __future__ import annotations
 
@@ -1398,7 +1410,9 @@ def run(ctx):
                            "rule": "pool n = first n registers"}
     ctx.rule = ("every single-block function whose body is an op sequence of length 1..nops over the configuration's "
                 "alphabet with every operand wiring over earlier values and arguments, times every return-operand "
-                "subset up to ret_max, times every argument configuration; one state = one program; transitions = "
+                "subset up to ret_max, times every argument configuration; plus every depth-2 loop nest of family "
+                "rv-nest and every program of family rv-prenest (see the module docstring); one state = one program; "
+                "transitions = "
                 "generator-tree edges (ops appended); executions = runs of the real allocator (one per program and "
                 "pool/mode) judged by the oracle; non-trivial = a program for which some pool made the allocator "
                 "succeed while giving one physical register to at least two different SSA values")
